@@ -49,6 +49,8 @@ def run_cut(case, chooser):
             chooser.active = True
             if kind == "fin":
                 rig.sessions[0].peer.vanish()
+            elif kind == "ctl-fin":
+                rig.sessions[0].ctl.close()          # only the control connection goes away
             elif kind == "rst":
                 rig.sessions[0].peer.vanish(reset=True)
             else:
@@ -88,7 +90,7 @@ def run_cut(case, chooser):
         grace = 0.75 if case["backend"] == "slow" else 0
         w.settle(grace)
         chooser.active = False
-        if kind in ("fin", "rst"):
+        if kind in ("fin", "rst", "ctl-fin"):
             s0 = rig.sessions[0]
             mine = [t for t in w.net.all_transports if t.side == "server" and t.peer is not None
                     and t.peer.side == s0.peer.name and t.accepted and not t.closing and not t.closed]
@@ -210,8 +212,10 @@ def build_items(tier):
                     continue
                 nev = count_events(script, backend, second)
                 for k in range(0, nev + 1):
-                    for cut in ("fin", "rst"):
+                    for cut in ("fin", "rst", "ctl-fin"):
                         if cut == "rst" and second and tier == "quick":
+                            continue
+                        if cut == "ctl-fin" and (second or "@data" not in corpus.SCRIPTS[script]):
                             continue
                         case = {"script": script, "backend": backend, "cut": cut, "k": k, "second": second,
                                 "explore_all": tier != "quick" and not second}
@@ -230,7 +234,7 @@ def run(tier, seed, t0):
         k = seed % len(items)
         items = items[k:] + items[:k]
     part = report.merge_all(report.pmap(_work, items))
-    bounds = {"scripts": len(corpus.SCRIPTS), "backends": list(BACKENDS), "cut_kinds": ["fin", "rst", "server.close()"],
+    bounds = {"scripts": len(corpus.SCRIPTS), "backends": list(BACKENDS), "cut_kinds": ["fin (all sockets)", "rst", "fin on the control connection only", "server.close()"],
               "cut_positions": "every delivered network event k of the fault-free run (k=0..N); server.close() "
                                "additionally at iterations j=0..%d after event k" % (3 if tier == "quick" else 6),
               "deviation_bound": 1, "deviation_kinds": ["early", "order"] if tier == "quick" else ["early", "order", "batch"],
